@@ -213,6 +213,14 @@ def check(ctx: Ctx):
             bound.update(ne.d['kwargs'])
             got = bound.get(dparam) if dparam else None
             ok = got is not None and key_of(got) == key_of(attr(params, 'evolventDensity'))
+            if not ok and got is not None:
+                # the effective parameters object of this solver (the argument, or the default object substituted for
+                # None): whatever the constructor keeps in one of its own attributes
+                sk_ = key_of(var(si.param_names[0]))
+                for (bk, fld), v in p.state.heap.items():
+                    if bk == sk_ and isinstance(fld, str) and isinstance(v, RF) and \
+                            C.strip_versions(key_of(attr(v, 'evolventDensity'))) == C.strip_versions(key_of(got)):
+                        ok = True
             ctx.check(ok, rid, si.short, si.loc(ne.node), f'Evolvent({dparam}=parameters.evolventDensity)',
                       f'the Solver builds its Evolvent with {dparam}={C.fmt(got) if got is not None else "<default>"}: '
                       f'SolverParameters.evolventDensity is ignored and the default grid is searched',
